@@ -29,3 +29,17 @@ pub fn slice_first(s: &Vec<Equation>) -> (r: Option<&Equation>)
 pub fn slice_last(s: &Vec<Equation>) -> (r: Option<&Equation>)
     ensures s@.len() == 0 ==> r is None, s@.len() > 0 ==> r is Some && *r->Some_0 == s@[s@.len() - 1]
 { unimplemented!() }
+
+// ---- Translator::translate_ (ast::Expr::Record): is the base of a record update trivial?  base::ast::Expr, same variants
+// as in the shrink unit (checked by name every run), payloads opaque
+#[verifier::external_body] pub struct AX { _p: () }
+pub mod ast {
+    use super::AX;
+    pub enum Expr {
+        Ident(AX), Literal(AX), App { func: AX, implicit_args: AX, args: AX }, Lambda(AX), IfElse(AX, AX, AX), Match(AX, AX),
+        Infix { lhs: AX, op: AX, rhs: AX, implicit_args: AX }, Projection(AX, AX, AX), Array(AX),
+        Record { typ: AX, types: AX, exprs: AX, base: AX }, Tuple { typ: AX, elems: AX }, LetBindings(AX, AX),
+        TypeBindings(AX, AX), Block(AX), Do(AX), MacroExpansion { original: AX, replacement: AX }, Annotated(AX, AX), Error(AX),
+    }
+}
+pub struct SpannedAstExpr { pub value: ast::Expr }
